@@ -876,6 +876,12 @@ func main() {
 	w("def botRequestAI : List String := %s", leanList(stmtSrcs(findFunc(botR, "botRunner", "requestAI"))))
 	w("def adapterUpdate : List String := %s", leanList(stmtSrcs(findFunc(adapter, "tableEngineAdapter", "UpdateTableState"))))
 	w("")
+	w("/-- tableEngineAdapter.SetActor and actor.SetAdapter, statement by statement (attaching hands the runner nothing) -/")
+	w("def adapterSetActor : List String := %s", leanList(stmtSrcs(findFunc(adapter, "tableEngineAdapter", "SetActor"))))
+	w("def actorSetAdapter : List String := %s", leanList(stmtSrcs(findFunc(parseFile(filepath.Join(repo, "actor", "actor.go")), "actor", "SetAdapter"))))
+	w("/-- playerRunner.Fold: the player's own fold brings him back (Resume) whether or not the table accepts it -/")
+	w("def playerFold : List String := %s", leanList(stmtSrcs(findFunc(playerR, "playerRunner", "Fold"))))
+	w("")
 	w("/-- actor.UpdateTableState, statement by statement (deliveries to one actor are queued behind its mutex, none is dropped) -/")
 	w("def actorUpdate : List String := %s", leanList(stmtSrcs(findFunc(parseFile(filepath.Join(repo, "actor", "actor.go")), "actor", "UpdateTableState"))))
 	w("")
